@@ -40,6 +40,11 @@ class DownChunkingPlugin(Plugin):
 
         for _result in result:
             if isinstance(_result, dict):
+                if self.multi_output and set(_result) != set(self.provides):
+                    raise ValueError(
+                        f"{self.__class__.__name__} is multi-output and should yield dicts with "
+                        f"all of {self.provides}, got {tuple(_result)}."
+                    )
                 values = _result.values()
             else:
                 if self.multi_output:
